@@ -219,3 +219,38 @@ pub fn read_ndjson(path: &str) -> Vec<Value> {
     let s = std::fs::read_to_string(path).expect("read cases");
     s.lines().filter(|l| !l.trim().is_empty()).map(|l| serde_json::from_str(l).expect("json line")).collect()
 }
+
+// ------------------------------------------------------------------------------------------- watchdog
+/// A call into the crate that does not return is data, like a panic: the watchdog thread notices a call that has
+/// been running for longer than `limit` seconds, records `{"op":"hang","key":..}` in `<out>.hang` and ends the
+/// process with exit code 3 (the glue turns that into a reported violation; normal calls take microseconds).
+pub struct Watchdog {
+    state: std::sync::Arc<std::sync::Mutex<(Option<std::time::Instant>, String)>>,
+}
+impl Watchdog {
+    pub fn start(out_path: &str, limit_s: u64) -> Self {
+        let state: std::sync::Arc<std::sync::Mutex<(Option<std::time::Instant>, String)>> = std::sync::Arc::new(std::sync::Mutex::new((None, String::new())));
+        let st = state.clone();
+        let hang_path = format!("{}.hang", out_path);
+        let _ = std::fs::remove_file(&hang_path);
+        std::thread::spawn(move || loop {
+            std::thread::sleep(std::time::Duration::from_millis(500));
+            let g = st.lock().unwrap();
+            if let (Some(t0), key) = (&g.0, &g.1) {
+                if t0.elapsed().as_secs() >= limit_s {
+                    let _ = std::fs::write(&hang_path, format!("{}\n", serde_json::json!({"op":"hang","key":key,"seconds":limit_s})));
+                    std::process::exit(3);
+                }
+            }
+        });
+        Watchdog { state }
+    }
+    pub fn enter(&self, key: &str) {
+        let mut g = self.state.lock().unwrap();
+        g.0 = Some(std::time::Instant::now());
+        g.1 = key.to_string();
+    }
+    pub fn leave(&self) {
+        self.state.lock().unwrap().0 = None;
+    }
+}
